@@ -97,7 +97,9 @@ class Session:
             self.on_query()
 
     def queries(self, addrs=None, pages=(1, 2, 12, 13, 14, 255), colls=None, batches=()):
-        addrs = addrs if addrs is not None else [a for a in self.cfg["users"][:6]]
+        # the owner / whitelist queries validate the address they are given: an unparsable one is part of the battery
+        # (found unexercised by tools/modelmut.py)
+        addrs = addrs if addrs is not None else [a for a in self.cfg["users"][:6]] + ["x"]
         colls = colls if colls is not None else self.by_kind("cw721")
         return self.h.queries(addrs, pages, colls, batches)
 
